@@ -22,10 +22,10 @@
    lazy_eval_extract_partial (a successful lazy evaluation phase read back as store valuation + graph operations), STEP 3 lazy_block_order_iso_partial.
    Earlier theorems (kept): scoped-variable forcing and the deferred graph operations are order independent.
    STEP 4 (blocks that communicate through scoped variables): lazy_block_order_iso_scoped_partial / lazy_block_order_fail_scoped_partial at the end of this file, on the
-   fragment `sstmt` of Proofs/ScPermSim.v (definitions `let @cap.x = e`, `node @cap.x`; reads `@cap.x` in deferred positions, possibly BEFORE the defining block ran;
+   fragment `sstmt` of Proofs/ScPermSim.v (definitions `let @cap.x = e`, `node @cap.x`; reads `@(scope).x` in deferred positions, possibly BEFORE the defining block ran;
    inherited names allowed).  The by-index acyclicity of the thunk store is replaced by a reference evaluator over a static environment (Proofs/ScPermCbn.v).
    Still NOT proved: scoped reads inside thunks (values of local variables or of other scoped definitions), as arguments of calls or elements of sets (a value may then mix
-   nodes of several blocks, so values would have to be compared up to re-sorting of sets), scopes that are not captures.  Debug attributes: see c08_debug_attribute_depends_on_order. *)
+   nodes of several blocks, so values would have to be compared up to re-sorting of sets), definitions whose scope is not a capture.  Debug attributes: see c08_debug_attribute_depends_on_order. *)
 From TSG Require Import Model.Lazy Model.Run Model.Stdlib Proofs.Scoped Proofs.PermFacts Proofs.SLGraph Proofs.SLForce Proofs.SLExpr Proofs.SLStmt Proofs.StrictLazy Proofs.EvalPerm Proofs.EvalPermLazy
   Proofs.BlockPermRen Proofs.BlockPermSim Proofs.BlockPermSwap Proofs.BlockPermExec Proofs.BlockPermDen Proofs.BlockPermGraph Proofs.BlockPermEval Proofs.BlockPermStd Proofs.BlockPermExample Proofs.BlockPermFuel Proofs.BlockPermRun
   Proofs.ScPermCbn Proofs.ScPermSound Proofs.ScPermAdeq Proofs.ScPermRen Proofs.ScPermSim Proofs.ScPermSwap Proofs.ScPermTyped Proofs.ScPermSR Proofs.ScPermExec Proofs.ScPermEvalSwap Proofs.ScPermRun Proofs.ScPermExample.
@@ -265,7 +265,8 @@ Proof. exact dx_order_observable. Qed.
      - everything of the fragment `fstmt` of Step 3 (local variables, `if`, `for`, `scan`, comprehensions, shorthands, sets of graph nodes, calls of functions in okfn);
      - DEFINITIONS of scoped variables `let @cap.x = e` and `node @cap.x`: the scope is a capture (a syntax node known at execution time: finding the cell forces nothing),
        the value e contains no scoped read; immutable only (`var @..`/`set @..` are errors in every order anyway); any nesting inside `if`/`for`/`scan`;
-     - READS `@cap.x` in DEFERRED positions: the node of `attr (..)`, source and sink of `edge` and `attr (.. -> ..)`, the values of attributes that are not shorthands,
+     - READS `@(scope).x` — the scope any expression of the fragment (a capture, a local variable holding a syntax node, ..) or again a read (`@(@cap.a).b`) —
+       in DEFERRED positions: the node of `attr (..)`, source and sink of `edge` and `attr (.. -> ..)`, the values of attributes that are not shorthands,
        print arguments — also inside list literals; in particular an edge may end in a node that a LATER block creates and stores in a scoped variable;
      - names declared `inherit` are allowed (the ancestor walk only reads the forced map);
      - as in Step 3: called functions graph-pure and equivariant under order-preserving renamings (`call_ok`), globals only mention nodes of g0, no debug attributes,
@@ -273,7 +274,7 @@ Proof. exact dx_order_observable. Qed.
    NOT covered (the statement is open there): a scoped read inside the value of a local variable or of another scoped definition (a thunk that reads a cell), as an argument
    of a call or an element of a set (such values mix graph nodes of several blocks; the renumbering is monotone only inside one block, so sets would have to be re-sorted
    and functions be equivariant under arbitrary injective renamings), in eager positions (conditions, `for`/`scan` subjects: the cell would be forced before all definitions
-   are collected — an error that DOES depend on the order), scope expressions other than captures.
+   are collected — an error that DOES depend on the order), DEFINITIONS whose scope expression is not a capture.
    PROOF ROUTE (Proofs/ScPerm*.v, 13 files): the by-index acyclicity of the thunk store (false as soon as a reader precedes its definer) is replaced by a reference evaluator
    `cev` over the static environment of the state at the beginning of the evaluation phase (bodies of the thunks, forced maps of the cells): plain unfolding, no state; a finite
    unfolding is the well-founded dependency order.  SOUNDNESS: a successful lazy evaluation phase computed what `cev` computes (no acyclicity assumed: it follows from success).
